@@ -615,3 +615,189 @@ pub fn boundary_programs(rng: &mut Rng, pools: &Pools, rounds: usize) -> Vec<(St
     }
     out
 }
+
+// ---------------------------------------------------------------- programs with debug names
+struct StripUv;
+impl IdMap for StripUv {
+    fn ty(&mut self, t: &ConcreteTypeId) -> ConcreteTypeId {
+        t.clone()
+    }
+    fn lf(&mut self, t: &ConcreteLibfuncId) -> ConcreteLibfuncId {
+        t.clone()
+    }
+    fn fu(&mut self, t: &FunctionId) -> FunctionId {
+        t.clone()
+    }
+    fn va(&mut self, t: &VarId) -> VarId {
+        VarId::new(t.id)
+    }
+    fn ut(&mut self, t: &UserTypeId) -> UserTypeId {
+        UserTypeId { id: t.id.clone(), debug_name: None }
+    }
+}
+/// The program without the debug names that `DebugInfo` has no place for (variables, user types).
+pub fn strip_uv(p: &Program) -> Program {
+    map_program(p, &mut StripUv)
+}
+
+/// Debug names that are token sequences of the Sierra grammar in the spacing `Display` produces
+/// (so that print . parse is the identity on them), unique per index `k`.
+pub fn text_type_name(kind: u64, k: u64) -> String {
+    match kind % 11 {
+        0 => format!("T{k}"),
+        1 => format!("core::m{k}::T"),
+        2 => format!("Array<T{k}>"),
+        3 => format!("core::option::Option::<core::integer::u{k}>"),
+        4 => format!("Tuple<u8, T{k}, -5, 340282366920938463463374607431768211457>"),
+        5 => format!("Coupon<user@ns::f{k}::<core::integer::u8, core::integer::u8Drop>>"),
+        6 => format!("(T{k}, u8)"),
+        7 => format!("@T{k}"),
+        8 => format!("[T{k}; 3]"),
+        9 => format!("G{k}<ut@ns::S, lib@store_temp<u8>, user@f{k}>"),
+        _ => format!("L{k}_{}", "a".repeat(300)),
+    }
+}
+pub fn text_libfunc_name(kind: u64, k: u64) -> String {
+    match kind % 8 {
+        0 => format!("lf{k}"),
+        1 => format!("store_temp<T{k}>"),
+        2 => format!("function_call<user@ns::f{k}>"),
+        3 => format!("coupon_call<user@ns::f{k}::<core::integer::u8, core::integer::u8Drop>>"),
+        4 => format!("core::x{k}"),
+        5 => format!("enum_init<core::option::Option::<T{k}>, 1>"),
+        6 => format!("coupon_buy<Coupon<user@f{k}>>"),
+        _ => format!("l{k}_{}", "b".repeat(200)),
+    }
+}
+pub fn text_func_name(kind: u64, k: u64) -> String {
+    match kind % 7 {
+        0 => format!("f{k}"),
+        1 => format!("ns::f{k}"),
+        2 => format!("ns::f{k}::<core::integer::u8, core::integer::u8Drop>"),
+        3 => format!("ns::f{k}[expr12]"),
+        4 => format!("ns::f{k}{{closure.0}}"),
+        5 => format!("ns::f{k}[expr3]{{closure.1}}"),
+        _ => format!("m{k}::{}", "c".repeat(150)),
+    }
+}
+/// Arbitrary strings (not necessarily printable back): only for the legs that do not parse text.
+const ANY_NAMES: [&str; 14] =
+    ["123", "", "a b", "x::<y,z>@w", "\u{e9}\u{65e5}\u{672c}", ",", "<", "@", "0", "[1]", "user@[1]", "a::b", "T", "ut@x"];
+
+pub struct NameTables {
+    pub ty: Vec<Option<String>>,
+    pub lf: Vec<Option<String>>,
+    pub fu: Vec<Option<String>>,
+}
+struct Namer<'a> {
+    t: &'a NameTables,
+}
+impl IdMap for Namer<'_> {
+    // every reference is folded into the declared range (a closed program); undeclared stay bare
+    fn ty(&mut self, x: &ConcreteTypeId) -> ConcreteTypeId {
+        let n = self.t.ty.len() as u64;
+        if n == 0 {
+            return ConcreteTypeId::new(x.id);
+        }
+        let id = x.id % n;
+        ConcreteTypeId { id, debug_name: self.t.ty[id as usize].as_deref().map(Into::into) }
+    }
+    fn lf(&mut self, x: &ConcreteLibfuncId) -> ConcreteLibfuncId {
+        let n = self.t.lf.len() as u64;
+        if n == 0 {
+            return ConcreteLibfuncId::new(x.id);
+        }
+        let id = x.id % n;
+        ConcreteLibfuncId { id, debug_name: self.t.lf[id as usize].as_deref().map(Into::into) }
+    }
+    fn fu(&mut self, x: &FunctionId) -> FunctionId {
+        let n = self.t.fu.len() as u64;
+        if n == 0 {
+            return FunctionId::new(x.id);
+        }
+        let id = x.id % n;
+        FunctionId { id, debug_name: self.t.fu[id as usize].as_deref().map(Into::into) }
+    }
+    fn va(&mut self, x: &VarId) -> VarId {
+        VarId::new(x.id)
+    }
+    fn ut(&mut self, x: &UserTypeId) -> UserTypeId {
+        UserTypeId { id: x.id.clone(), debug_name: None }
+    }
+}
+
+/// A closed program (every referenced type / libfunc / function id is declared) in the text
+/// domain, whose ids carry debug names consistently: an id has the same name (or none) at its
+/// declaration and at every use - the invariant of compiler output, and what `DebugInfo` can
+/// store.  The first type and libfunc declarations carry every `GenericArg` kind.
+/// `text_names`: names are printable-and-parsable and unique; otherwise arbitrary strings too.
+pub fn gen_named_program(rng: &mut Rng, pools: &Pools, text_names: bool) -> Program {
+    let o = Opts { text_ok: true, medium: false };
+    let mut p = gen_program_min(rng, pools, o, 2);
+    let all_kinds = |rng: &mut Rng| -> Vec<GenericArg> {
+        let mut v = vec![
+            GenericArg::UserType(UserTypeId { id: rand_bits(rng, 250), debug_name: None }),
+            GenericArg::Type(ConcreteTypeId::new(rng.next())),
+            GenericArg::Value(-BigInt::from(rng.below(1000) + 1)),
+            GenericArg::Value((BigInt::one() << 128) + BigInt::from(rng.below(1000))),
+            GenericArg::UserFunc(FunctionId::new(rng.next())),
+            GenericArg::Libfunc(ConcreteLibfuncId::new(rng.next())),
+            GenericArg::UserFunc(FunctionId::new(rng.next())),
+        ];
+        // any order
+        for i in (1..v.len()).rev() {
+            v.swap(i, rng.below(i as u64 + 1) as usize);
+        }
+        v
+    };
+    p.type_declarations[0].long_id.generic_args = all_kinds(rng);
+    p.libfunc_declarations[0].long_id.generic_args = all_kinds(rng);
+    // a coupon-like type and the libfuncs that name a user function
+    p.type_declarations[1].long_id =
+        ConcreteTypeLongId { generic_id: "Coupon".into(), generic_args: vec![GenericArg::UserFunc(FunctionId::new(rng.next()))] };
+    p.libfunc_declarations[1].long_id = ConcreteLibfuncLongId {
+        generic_id: (*rng.pick(&["function_call", "coupon_call"])).into(),
+        generic_args: vec![GenericArg::UserFunc(FunctionId::new(rng.next()))],
+    };
+    let mut names = |rng: &mut Rng, n: usize, f: &dyn Fn(u64, u64) -> String| -> Vec<Option<String>> {
+        // all named / none named / a mix
+        let mode = rng.below(4);
+        (0..n as u64)
+            .map(|k| {
+                let named = match mode {
+                    0 => true,
+                    1 => false,
+                    _ => rng.below(3) != 0,
+                };
+                if !named {
+                    None
+                } else if text_names || rng.below(3) != 0 {
+                    Some(f(rng.below(64), k))
+                } else {
+                    Some((*rng.pick(&ANY_NAMES)).to_string())
+                }
+            })
+            .collect()
+    };
+    let t = NameTables {
+        ty: names(rng, p.type_declarations.len(), &text_type_name),
+        lf: names(rng, p.libfunc_declarations.len(), &text_libfunc_name),
+        fu: names(rng, p.funcs.len(), &text_func_name),
+    };
+    let mut q = map_program(&p, &mut Namer { t: &t });
+    if text_names {
+        // user types by name: the id is the hash of the name, as the parser will compute it
+        let mut k = 0;
+        for d in q.type_declarations.iter_mut() {
+            for a in d.long_id.generic_args.iter_mut() {
+                if let GenericArg::UserType(u) = a {
+                    k += 1;
+                    if k % 2 == 0 {
+                        *u = UserTypeId::from_string(format!("ns::S{k}::<core::felt252>"));
+                    }
+                }
+            }
+        }
+    }
+    q
+}
